@@ -330,7 +330,7 @@ def check_pair(rec, su: Setup, sh: Shape, r: int, t: int, cell: Lin):
         rec.unk("C10.1", f"{tag}: sizing pass leaves the loop by {other[0][0][0]}", w1, "not modelled")
         return
     if r > t:
-        if falls and any((c.left.has_opaque() or c.right.has_opaque()) for x in falls for c, tt, _ in x[3].path):
+        if falls and any(opaque_path(x[3]) for x in falls):
             rec.unk("C10.1", f"{tag}: the sizing pass may accept a cell finer than the target", w1, "on a path whose condition is not modelled")
         elif falls:
             rec.bad("C10.1", f"{tag}: a cell finer than the target is accepted by the sizing pass", w1,
@@ -338,8 +338,7 @@ def check_pair(rec, su: Setup, sh: Shape, r: int, t: int, cell: Lin):
         else:
             rec.ok("C10.1", f"{tag}: raises in the sizing pass", w1, "every path raises before the result list exists")
         return
-    if raises and su.ids.get(t) is not None and any(
-            (c.left.has_opaque() or c.right.has_opaque()) for x in raises for c, tt, _ in x[3].path):
+    if raises and su.ids.get(t) is not None and any(opaque_path(x[3]) for x in raises):
         rec.unk("C10.1", f"{tag}: the sizing pass may raise", w1, "on a path whose condition is not modelled")
         return
     if raises and su.ids.get(t) is not None:
@@ -377,7 +376,7 @@ def check_pair(rec, su: Setup, sh: Shape, r: int, t: int, cell: Lin):
     bad2 = [x for x in p2 if x not in falls2]
     for x in bad2:
         kind = x[0][0]
-        lost = any((c.left.has_opaque() or c.right.has_opaque()) for c, tt, _ in x[4].path)
+        lost = opaque_path(x[4])
         rec.ob("C10.4", f"{tag}: filling pass leaves the loop by {kind}", core.VIOLATED if kind == "raise" and not lost else core.UNDECIDED, w2,
                f"path [{describe_path(x[4])}] {x[0][1] if kind == 'raise' else ''}")
     if len(falls2) != 1:
